@@ -60,10 +60,29 @@ def config_case(draw, tier="quick", connect=True):
         off_items = [draw(item(common))]
     case = {"offerer": {"bundle": draw(st.sampled_from(list(["balanced", "max-compat", "max-bundle"]))), "always_dc": always, "items": off_items},
             "answerer": {"bundle": draw(st.sampled_from(["balanced", "max-compat", "max-bundle"])), "always_dc": False, "items": ans_items},
-            "followup": None, "connect": connect}
+            "followup": None, "connect": connect, "reorder": draw(st.sampled_from([None, None, None, "rtx-last", "reverse", "rotate"]))}
     if draw(st.booleans()):
         case["followup"] = {"offer_by": draw(st.integers(0, 1)), "add_to": draw(st.integers(0, 1)), "item": draw(item(common))}
     return case
+
+
+def reorder_offer(text: str, mode: str) -> str:
+    """The same offer as another implementation might write it: codecs of every audio/video section listed in a different
+    order (RTX entries after all real codecs / reversed / rotated).  Payload types, parameters and feedback are untouched."""
+    d = SDP.SessionDescription.parse(text)
+    for m in d.media:
+        if m.kind not in KINDS or len(m.rtp.codecs) < 2:
+            continue
+        codecs = list(m.rtp.codecs)
+        if mode == "rtx-last":
+            codecs = [c for c in codecs if not is_rtx(c)] + [c for c in codecs if is_rtx(c)]
+        elif mode == "reverse":
+            codecs = codecs[::-1]
+        else:
+            codecs = codecs[1:] + codecs[:1]
+        m.rtp.codecs = codecs
+        m.fmt = [c.payloadType for c in codecs]
+    return str(d)
 
 
 def apply_item(pc, it: dict, log: EventLog, made: dict) -> None:
@@ -203,7 +222,13 @@ class Scenario:
             self.field_check(a, offer)
             await a.setLocalDescription(offer)
             self.field_check(a, a.localDescription)
-            await b.setRemoteDescription(a.localDescription)
+            remote_offer = a.localDescription
+            if self.case.get("reorder"):
+                from aiortc import RTCSessionDescription
+
+                remote_offer = RTCSessionDescription(sdp=reorder_offer(remote_offer.sdp, self.case["reorder"]), type="offer")
+                self.classes.add("offer-reordered")
+            await b.setRemoteDescription(remote_offer)
             answer = await b.createAnswer()
             self.descriptions.append(("answer", answer.sdp, 1 - offer_by))
             self.field_check(b, answer)
